@@ -68,8 +68,18 @@ PROPS = {
         'the blocking behaviour of Client/Server calls, T1 retry budget and connect failure are covered by the e2e handshake scenarios and by C19 theorems, not by the Hs model',
         'verification tags and ports are not part of the model (the implementation does not check inbound verification tags)']},
     'C14': {'jobs': [E2E_RS], 'rule': E2E_RULE},
-    'C10': {'jobs': [ASND, E2E_T]},
-    'C15': {'jobs': [ASND, E2E_T, E2E_PR, E2E_API]},
+    'C10': {'jobs': [ASND, E2E_T], 'assumptions': [
+        'L0 model Model/Sender.lean is hand-written; its window tests / updates / congestion formulas / chunk sizes are translator-generated Gen.* defs; the rest is tied by comparing every op of the direct-drive harness',
+        'oracles (quantified over in the theorems, recorded from the real code in the harness): TLR burst budget, pending-queue selection, RACK/PTO loss marks, T3 expiries during a clock tick',
+        'window theorems assume no uint32 wrap (ghost flag wrapWin: < 2^32 bytes in flight, cwnd + increment < 2^32) and MTU < 2^30',
+        '"cut on loss" is formalised as the RFC 4960 7.2.3 formula at T3 expiry and at entry to fast recovery; RACK/PTO marks do not change cwnd in this implementation',
+        'blockWrite, SHUTDOWN cumulative ack, RTT/RACK bookkeeping, timers and goroutines are outside the sender model',
+    ]},
+    'C15': {'jobs': [ASND, E2E_T, E2E_PR, E2E_API], 'assumptions': [
+        'same model, oracles and ties as C10',
+        'per-stream theorems carry the D9 hypothesis (a stream stays in the association table while it has data outstanding) and assume no uint64 wrap of bufferedAmount (ghost flag wrapBuf)',
+        'callback-unlocked is decided on translator-extracted control-flow paths of onBufferReleased and the statements around its call site (syntactic), plus a dynamic TryLock probe in the harness',
+    ]},
     'C18': {'jobs': [E2E_API, E2E_SD], 'rule': E2E_RULE},
     'C09': {'jobs': [E2E_TD, E2E_SD, E2E_HS], 'rule': E2E_RULE},
     'C19': {'jobs': [RTO, TIMER], 'assumptions': [
